@@ -271,8 +271,18 @@ func (x *Exec) frameEnv(f *Frame, st *State, header *ssa.BasicBlock) *Env {
 			}
 		}
 	}
-	if x.unit != nil && x.unit.Contract != nil {
-		// lets of the top-level contract (entry values)
+	// iterators: it_idx / it_n / it_seq / it_snap refer to the most recently created iterator
+	maxID := 0
+	for id := range st.iters {
+		if id > maxID {
+			maxID = id
+		}
+	}
+	if it, ok := st.iters[maxID]; ok {
+		env.vars["it_idx"] = it.Idx
+		env.vars["it_n"] = it.N
+		env.vars["it_seq"] = it.Seq
+		env.vars["it_snap"] = it.Snap
 	}
 	return env
 }
